@@ -48,17 +48,24 @@ int MakeReadFd(const uint8_t* data, size_t n) {
 
 DynReader::DynReader(const ReaderSpec& spec, const uint8_t* data, size_t n) {
   srclen_ = n;
-  heap_ = new uint8_t[n ? n : 1];
+#if defined(VF_SAN)
+  const size_t slack = 0;   // exactly sized: the sanitizer sees any over-read
+#else
+  const size_t slack = 4096;  // poison after the input: an over-read is observed, not fatal
+#endif
+  heap_ = new uint8_t[n + slack ? n + slack : 1];
   if (n) memcpy(heap_, data, n);
+  memset(heap_ + n, 0xCD, slack);
   const std::string& k = spec.kind;
   const size_t lim = static_cast<size_t>(spec.limit);
   using SS = nop::StreamReader<std::stringstream>;
   using FS = nop::StreamReader<std::ifstream>;
   if (k == "buffer") {
-    unchecked_ = true;
+    buffer_backed_ = true;
     if (spec.bounded) impl_.reset(new RBounded<nop::BufferReader>(lim, heap_, n));
     else impl_.reset(new RDirect<nop::BufferReader>(heap_, n));
   } else if (k == "pedantic") {
+    buffer_backed_ = true;
     if (spec.bounded) impl_.reset(new RBounded<nop::PedanticBufferReader>(lim, heap_, n));
     else impl_.reset(new RDirect<nop::PedanticBufferReader>(heap_, n));
   } else if (k == "sstream") {
